@@ -1,4 +1,4 @@
-CONSTANTS Procs = {0,1,2} HW = {1,2} Threads = {1,2} MaxOps = 2
+CONSTANTS Procs = {0,1,2} HW = {1,2} Threads = {1,2} MaxOps = 2 Faults = TRUE
   Kinds <- KindsDef  RegionOf <- RegionOfDef  SpawnSets <- SpawnSetsQuick
 SPECIFICATION Spec
 INVARIANT TypeOK LibTruthful TPExactOrNamed CacheIsFunctionOfLastPin
